@@ -19,8 +19,8 @@ REQS = ["alpha", "beta>=1.0", "gamma[socks]<3,>=2", "delta==1.*", "epsilon; pyth
         "eta>=1; sys_platform == 'win32'", "Theta.Lib~=2.1"]
 EXTRAS = ["test", "docs", "x", "Security"]
 
-VERSION_FROM = ["literal", "file", "module", "package", "exec", "regex", "computed", "about-dict", "nested-relative"]
-REQS_FROM = ["literal", "file", "string", "tuple", "helper", "nested-relative"]
+VERSION_FROM = ["literal", "file", "module", "package", "exec", "regex", "computed", "about-dict", "nested-relative", "hidden-file-guarded"]
+REQS_FROM = ["literal", "file", "string", "tuple", "helper", "nested-relative", "hidden-dir-guarded"]
 HERE = ["abspath-dirname", "dirname", "relative", "chdir", "realpath"]
 SETUP_IMPORT = ["from-setuptools", "setuptools-mod", "distutils"]
 STYLES = ["kwargs", "kwargs", "kwargs", "cfg", "mixed", "pyproject"]
@@ -143,6 +143,9 @@ def _setup_py(spec):
             L.append("version = %r" % spec["version"])
         elif vf == "file":
             L.append("with open(os.path.join(here, 'VERSION')) as f:\n    version = f.read().strip()")
+        elif vf == "hidden-file-guarded":
+            # a dot-file at the project root, read only if it is there (with a default that is not the declaration)
+            L.append("version = '0.0.0'\n_vf = os.path.join(here, '.version')\nif os.path.exists(_vf):\n    with open(_vf) as f:\n        version = f.read().strip()")
         elif vf == "module":
             L.append("from helper_mod import VERSION as version")
         elif vf == "package":
@@ -169,6 +172,8 @@ def _setup_py(spec):
                 L.append("with open(os.path.join(here, 'requirements.txt')) as f:\n    requires = [l.strip() for l in f if l.strip() and not l.startswith('#')]")
             elif rf == "nested-relative":
                 L.append("from %s.plugins.info import REQUIRES as requires" % p)
+            elif rf == "hidden-dir-guarded":
+                L.append("requires = []\n_rf = os.path.join(here, '.requirements', 'base.txt')\nif os.path.isfile(_rf):\n    with open(_rf) as f:\n        requires = [l.strip() for l in f if l.strip() and not l.startswith('#')]")
             elif rf == "string":
                 L.append("requires = %r" % "\n".join(spec["requires"]))
             elif rf == "tuple":
@@ -220,7 +225,8 @@ def _setup_cfg(spec, full):
 def _pyproject(spec):
     def arr(xs):
         return "[" + ", ".join('"%s"' % x.replace('"', '\\"') for x in xs) + "]"
-    L = ["[build-system]", 'requires = ["setuptools"]', 'build-backend = "setuptools.build_meta"', "", "[project]",
+    backend = "rv_inplace_backend" if spec.get("backend") == "rv-inplace" else "setuptools.build_meta"
+    L = ["[build-system]", 'requires = ["setuptools"]', 'build-backend = "%s"' % backend, "", "[project]",
          'name = "%s"' % spec["name"], 'version = "%s"' % spec["version"],
          "dependencies = %s" % arr(spec["requires"] + (["this is ;;; not a requirement"] if spec.get("broken_backend") else []))]
     if spec["extras"]:
@@ -237,6 +243,8 @@ def files_of(spec):
     f = {
         "README.txt": "A sample project\n",
         "VERSION": spec["version"] + "\n",
+        ".version": spec["version"] + "\n",
+        ".requirements/base.txt": "# requirements\n" + "\n".join(spec["requires"]) + "\n",
         "requirements.txt": "# requirements\n" + "\n".join(spec["requires"]) + "\n",
         "helper_mod.py": "VERSION = %r\nREQUIRES = %r\n" % (spec["version"], spec["requires"]),
         "%s/__init__.py" % p: "__version__ = '%s'\n" % spec["version"],
